@@ -18,6 +18,8 @@ CLAIMED = {
          'On every accepting path of validate(x): format(x) must return, validate(format(x)) must return the same canonical number (up to the four documented normalisations) and format(validate(x)) must equal format(x), for the default and the documented format options. Bounded lengths / K / caps.', '5 C04'),
  'C08': ('symbolic execution of the real conversion functions and target validators on a symbolic source number + z3 obligations (target-valid, inverse / embedding)',
          'For each of the ~30 listed conversions: on every accepting path of the source validate(x) for a raw symbolic x, the converted value must validate in the target format and convert back to / embed the source identity; ValidationError refusals are allowed, other exceptions are not. Bounded lengths / K / caps.', '5 C08'),
+ 'C09': ('joint symbolic execution of each wrapper and its constituent validators on the same symbolic input + z3/boolean obligations for the documented relation',
+         'eu.vat against each of the 27 member-state validators plus XI and EL/GR (independent list), with the result-carries-prefix relation and vatin ⊇ eu.vat; vatin against every package exporting vat; us.tin / be.ssn / th.tin against the union of their sub-types (and guess_type); es.nif ⊇ dni, nie, cif; iban against generic rules ∧ national validator for BE, ES, ME, NO; five one-to-one wrappers. Country prefix concrete, the rest of the input fully symbolic. Bounded lengths / K / caps; guess_country() and history-dependent dispatch (module caches) are C13\'s business.', '5 C09'),
  'C12': ('symbolic execution of every attribute getter on accepting paths of validate() with a symbolic system date + z3 obligations',
          'On every accepting path of validate(x): each getter (get_*, info, split, *_type) returns or raises a ValidationError; birth dates are constructed through a date model that raises exactly like datetime.date, agree with get_birth_year/month and (for 11 fixed-layout formats) with the digits; gender is M/F/None; split() parts concatenate to the canonical number. Bounded lengths / K / caps.', '5 C12'),
  'C14': ('symbolic execution of the real clean() over all code points / symbolic strings x symbolic deletechars + z3; module level: symbolic look-alike at a symbolic position',
